@@ -84,6 +84,8 @@ structure NInfo where
   key : Str := []          -- dict key it is stored under / `ListSlot.name`
   val : Val := .none       -- scalar `.value`
   u : Str := []            -- scalar `.u`
+  optOv : Option Bool := none   -- instance-level `optional=` (`Element.__init__(**kw)` override), if any
+  nameOv : Option Str := none   -- instance-level `name=` override, if any
   deriving Repr, Inhabited
 
 inductive Node
@@ -103,7 +105,13 @@ def withParent (n : Node) (p : Option Nat) : Node := .mk { n.ni with parent := p
 def withKey (n : Node) (k : Str) : Node := .mk { n.ni with key := k } n.sch n.kids
 def withScalar (n : Node) (v : Val) (u : Str) : Node := .mk { n.ni with val := v, u := u } n.sch n.kids
 /-- `.name` of the element: the class attribute; a slot's name is stored on the instance -/
-def name (n : Node) : Option Str := if n.kind = .slot then some n.key else n.sch.name
+def name (n : Node) : Option Str :=
+  if n.kind = .slot then some n.key else (match n.ni.nameOv with | some nm => some nm | none => n.sch.name)
+/-- `.optional` as attribute lookup on the instance finds it: the instance override, else the class attribute -/
+def optional (n : Node) : Bool := n.ni.optOv.getD n.sch.info.optional
+/-- keyword overrides given to the constructor (`schema(value, optional=…, name=…)`) -/
+def withOverrides (n : Node) (o : Option Bool) (nm : Option Str) : Node :=
+  .mk { n.ni with optOv := o, nameOv := nm } n.sch n.kids
 end Node
 
 /-- `element.children` (a List yields its slots' elements; slots and scalars have none) -/
@@ -608,6 +616,8 @@ inductive SeqOp
   | delitem (i : Int) | delslice (s : Slice)
   | pop (i : Option Int) | remove (a : Arg)
   | reverse | sort (key : Option SortKey) (rev : Bool)
+  | clear                  -- `list.clear` (not overridden)
+  | imul (count : Int)     -- `seq *= count` (`Sequence.__imul__`)
   | set (r : Raw) | setDefault
   | len | getitem (i : Int) | getslice (s : Slice)
   | contains (a : Arg) | index (a : Arg) | count (a : Arg)
@@ -690,6 +700,28 @@ def extendArgs (m : Schema) : Node → List Arg → Nat → Node × Nat × Optio
     | (.ok w, n1) =>
       let r := appendEl n w n1
       extendArgs m r.1 as r.2
+
+/-- `.u` as `__imul__` reads it off a member -/
+def uOfMember (m : Node) : Str :=
+  match m.kind with
+  | .integer | .string => m.ni.u
+  | .multi | .slot => (match m.kids.head? with | some k => k.ni.u | none => [])
+  | _ => ['x']    -- containers render a non-empty text; their value is never None
+
+/-- the value `__imul__` re-feeds for a member:
+    `member.value if member.value is not None or not member.u else member.u` -/
+def imulValue (m : Node) : Raw :=
+  match valueOf m with
+  | .none => if (uOfMember m).isEmpty then .none else .str (uOfMember m)
+  | v => v
+
+/-- `for _ in range(count - 1): self.extend(values)` -/
+def imulLoop (m : Schema) (vals : List Arg) : Nat → Node → Nat → Node × Nat × Option Exc
+  | 0, n, next => (n, next, none)
+  | k + 1, n, next =>
+    match extendArgs m n vals next with
+    | (n', nx, some e) => (n', nx, some e)
+    | (n', nx, none) => imulLoop m vals k n' nx
 
 /-- new slots for a List slice assignment: every `_new_slot` sees the same `len(self)` -/
 def newSlots (lst : Nat) (len : Nat) : List Node → Nat → List Node × Nat
@@ -831,6 +863,17 @@ def seqStep (n : Node) (op : SeqOp) (next : Nat) : StepR :=
          let kids' := sortBy (sortLe k rev) n.kids
          ⟨n.withKids (if isList then renumber kids' else kids'), next, .ok, []⟩
        else excOut n next .unsupported)
+  | .clear => ⟨n.withKids [], next, .ok, n.kids⟩
+  | .imul count =>
+    if count ≤ 0 then
+      -- `del self[:]`
+      ⟨n.withKids (if isList then renumber [] else []), next, .ok, n.kids⟩
+    else
+      let vals := (members n).map (fun x => Arg.plain (imulValue x))
+      let r := imulLoop m vals (count.toNat - 1) n next
+      (match r.2.2 with
+       | some e => excOut r.1 r.2.1 e
+       | none => ⟨r.1, r.2.1, .ok, []⟩)
   | .set r =>
     let s := setNode n r none next
     (match s.res with
@@ -970,7 +1013,7 @@ def mapReset (n : Node) (next : Nat) : Node × Nat :=
 /-- `field.optional` as `SparseDict.__delitem__` / `pop` read it -/
 def keyOptional (n : Node) (key : Str) : Option Bool :=
   match findKid n.kids key with
-  | some c => some c.sch.info.optional
+  | some c => some c.optional      -- `self[key].optional`: the INSTANCE (class attribute unless overridden)
   | none => (fieldFor n.sch.subs key).map (fun f => f.info.optional)
 
 /-- one dict-protocol call on a Dict / SparseDict element -/
